@@ -154,7 +154,7 @@ func TestC12Close(t *testing.T) {
 		w.hbPeriod = time.Duration(rapid.SampledFrom([]int{1, 5, 20, 100, 500, 2000}).Draw(t, "hb_period_us")) * time.Microsecond
 		w.shortRetry = rapid.IntRange(0, 3).Draw(t, "short_retry") > 0
 		w.lingerAfterFault = rapid.IntRange(0, 2).Draw(t, "linger_after_fault") == 0
-		w.readTO = time.Duration(rapid.SampledFrom([]int{0, 0, 300, 1000, 1500}).Draw(t, "read_timeout_ms")) * time.Millisecond
+		w.readTO = time.Duration(rapid.SampledFrom([]int{0, 0, 300, 1000, 1500, 60000, 3600000}).Draw(t, "read_timeout_ms")) * time.Millisecond
 		w.apHB = rapid.Bool().Draw(t, "ardupilot_heartbeats")
 		// two rare combinations are put together on purpose now and then (a draw like any other, so replay and
 		// shrinking see it), so that their classes do not depend on luck
